@@ -24,7 +24,7 @@ logging.disable(logging.WARNING)
 THEOREMS = ['Pylx.C04_step', 'Pylx.C04_first_rule', 'Pylx.C04_concat', 'Pylx.C04_concat_str', 'Pylx.C04_exceptions',
             'Pylx.C04_terminates', 'Pylx.C04_ascii_untouched', 'Pylx.C04_partial', 'Pylx.C04_partial_no_keep',
             'Pylx.C04_partial_exceptions', 'Pylx.C04_concrete_noRaise', 'Pylx.C04_asis_partial_raises', 'Pylx.C04_asis_del_not_passed']
-RULE = ('ENC: encoder configurations (rule lists mixing dict / regex-combinator / callable-family rules - including a rule that calls unicode_to_latex re-entrantly on the encoder object it is handed - with overlapping matches and '
+RULE = ('ENC: encoder configurations (rule lists mixing dict / regex-combinator (incl. patterns anchored with ^ or a look-behind, which depend on what precedes the position) / callable-family rules - including a rule that calls unicode_to_latex re-entrantly on the encoder object it is handed - with overlapping matches and '
         'multi-character consumption, protection scheme global and per rule, unknown-character policy, non_ascii_only, chunk-list and '
         'str result classes, PartialLatexToLatexEncoder with several keep sets) x strings (every character of both built-in tables, '
         'all ASCII, control, combining, astral, unassigned, NFC-unstable, LaTeX token soups, random mixtures); sig = outcome + set of '
@@ -78,6 +78,15 @@ def rx_source(items):
             plus = it[3]
         out.append(src + ('+' if plus else ''))
     return ''.join(out)
+
+def guard_source(g):
+    """zero-width assertion in front of a pattern that looks at what precedes the position: ['A'] = ^ (start of the string:
+    the rule pattern is matched with regex.match(s, pos)), ['P', neg, ranges] = one-character look-behind"""
+    if not g:
+        return ''
+    if g[0] == 'A':
+        return '^'
+    return ('(?<!' if g[1] else '(?<=') + '[' + ''.join('\\U%08x-\\U%08x' % (lo, hi) for lo, hi in g[2]) + '])'
 
 def repl_template(pieces):
     return ''.join(p[1].replace('\\', '\\\\') if p[0] == 't' else '\\g<0>' for p in pieces)
@@ -194,7 +203,7 @@ def build_rules(case):
         elif r['t'] == 'R':
             es = []
             for e in r['es']:
-                rx = re.compile(rx_source(e['rx']))
+                rx = re.compile(guard_source(e.get('g')) + rx_source(e['rx']))
                 es.append((rx, repl_callable(e['repl']) if r.get('call') else repl_template(e['repl'])))
             out.append(le.UnicodeToLatexConversionRule(le.RULE_REGEX, es, replacement_latex_protection=_prot_arg(r.get('prot'))))
         elif r['t'] == 'F':
@@ -287,7 +296,7 @@ def spec_rule_match(r, s, p):
         return None
     if r['t'] == 'R':
         for e in r['es']:
-            m = re.compile(rx_source(e['rx'])).match(s, p)
+            m = re.compile(guard_source(e.get('g')) + rx_source(e['rx'])).match(s, p)
             if m is not None:
                 return (m.end() - m.start(), ''.join(x[1] if x[0] == 't' else s[m.start():m.end()] for x in e['repl']))
         return None
@@ -519,8 +528,12 @@ def rule_field(r, sn):
             ents.append('%x=%s' % (k, _w(v)))
         return ' '.join(['D', pr] + ents)
     if r['t'] == 'R':
-        toks = ['R', pr]
+        guarded = any(e.get('g') for e in r['es'])
+        toks = ['RG' if guarded else 'R', pr]
         for e in r['es']:
+            if guarded:
+                g = e.get('g')
+                toks.append('g:-' if not g else ('g:A' if g[0] == 'A' else 'g:P:%s:%s' % ('1' if g[1] else '0', '.'.join('%x-%x' % (lo, hi) for lo, hi in g[2]))))
             for it in e['rx']:
                 if it[0] == 'l':
                     toks.append(('L' if it[2] else 'l') + ':' + _w(it[1]))
@@ -638,8 +651,16 @@ def rand_rule(rng):
         keys = rng.sample(ALPH, rng.randint(1, 5))
         return {'t': 'D', 'prot': pr, 'd': [[ord(k), rng.choice(REPLS)] for k in keys]}
     if x < 0.65:
-        return {'t': 'R', 'prot': pr, 'call': rng.random() < 0.3,
-                'es': [{'rx': rand_rx(rng), 'repl': rand_repl_pieces(rng)} for _ in range(rng.choice([1, 1, 2, 3]))]}
+        es = [{'rx': rand_rx(rng), 'repl': rand_repl_pieces(rng)} for _ in range(rng.choice([1, 1, 2, 3]))]
+        if rng.random() < 0.35:
+            # patterns that depend on what precedes the position
+            for e in es:
+                y = rng.random()
+                if y < 0.3:
+                    e['g'] = ['A']
+                elif y < 0.8:
+                    e['g'] = ['P', rng.random() < 0.5, rand_class(rng)]
+        return {'t': 'R', 'prot': pr, 'call': rng.random() < 0.3, 'es': es}
     if x < 0.72:
         return dict(rng.choice([B_DEF, B_XML]))
     y = rng.random()
@@ -683,7 +704,11 @@ def fixed_rule_lists():
     f_ov = {'t': 'F', 'prot': 'braces-after-macro', 'f': ['overrun', 'b', 3, '\\bbb'], 'u2l': False}
     f_pair = {'t': 'F', 'prot': None, 'f': ['pairWith', 0x300, 0x36f], 'u2l': False}
     d_del = {'t': 'D', 'prot': None, 'd': [[0x7f, '\\DEL'], [ord('A'), '\\A'], [0x301, "\\'{}"]]}
-    return [[d_a, r_ab], [r_ab, d_a], [r_back, r_ab, d_a], [f_sw, r_ab, d_a], [f_ov, d_a, r_back], [f_up, d_del, B_DEF],
+    r_g = {'t': 'R', 'prot': None, 'call': False, 'es': [
+        {'g': ['A'], 'rx': [['c', False, [[0x61, 0x62]], False]], 'repl': [['t', '\\first{'], ['m'], ['t', '}']]},
+        {'g': ['P', False, [[0x61, 0x61], [0x41, 0x42]]], 'rx': [['l', 'b', True]], 'repl': [['t', '\\afterA']]},
+        {'g': ['P', True, [[0x2e, 0x2e]]], 'rx': [['l', '...', False]], 'repl': [['t', '\\ldots']]}]}
+    return [[r_g, d_a], [r_g], [r_ab, r_g, d_a], [d_a, r_ab], [r_ab, d_a], [r_back, r_ab, d_a], [f_sw, r_ab, d_a], [f_ov, d_a, r_back], [f_up, d_del, B_DEF],
             [f_pair, d_del, B_DEF], [d_del], [B_DEF], [B_XML, B_DEF], []]
 
 LATEX_ATOMS = ['\\', '\\alpha', '\\alpha ', '\\begin{x}', '\\begin', '\\begin x', '\\end', '\\end{y}', '{', '}', '$', '$$', '^', '_',
